@@ -65,3 +65,14 @@ Proof.
   unfold tru in S1, S2. rewrite E1 in S1. rewrite E2 in S2.
   rewrite (S1 x), (S2 x). tauto.
 Qed.
+
+(* Soundness of the run-time tie: on a recorded backend case whose leaf answers pass the
+   soundness check, agreement of the real search answer with the model's forces the real answer
+   to be exactly the reference-semantics result (so zero disagreements transfer C01_search_exact
+   to every observed implementation case). *)
+Theorem C01_agree_implies_search_exact :
+  forall univ ls f thres lim ii isr ier itrue,
+    forallb (leaf_ok univ ls) ls = true -> user_filter f = true ->
+    agree (CBe univ ls f thres lim ii isr ier itrue) = true ->
+    match isr with SErr => True | SOk r => set_eqb r (ref_result univ ls f) = true end.
+Proof. exact agree_search_exact. Qed.
